@@ -17,6 +17,7 @@ Import RecordSetNotations.
 From Aldrin Require Import gen.BrokerConsts Broker.Model Broker.Run Broker.OutKinds Broker.EventProofs
   Broker.CallProofs Broker.CallInvProofs Props.C02_lemmas.
 From Aldrin Require Import Broker.CallMoreProofs.
+From Aldrin Require Import Broker.SerialProofs Props.C11_lemmas.
 Local Open Scope N_scope.
 
 (* (a) the service does not exist: InvalidService with the caller's serial, nothing else happens *)
@@ -294,7 +295,7 @@ Example C02_call_forwarded_sat :
   conns s !! 2 = Some (get_conn s 2) /\ is_call (get_conn s 2) (CallFunction 9 1001 3 77) 9 1001 3 None 77 /\
   svc_by_cookie s 1001 = Some ((100, 200), get_svc s (100, 200)) /\ owner_of_svc s (100, 200) = Some 1 /\
   conns s !! 1 = Some (get_conn s 1) /\ cs_alive (get_conn s 1) = true /\
-  pick_serial s (Some 0) = Some (0, 0) /\ cs_calls (get_conn s 2) !! 9 = None.
+  pick_serial s (Some 0) = Some (0, 1) /\ cs_calls (get_conn s 2) !! 9 = None.
 Proof. exact call_forwarded_sat. Qed.
 
 Example C02_reply_routed_sat :
@@ -407,7 +408,7 @@ Example C02_call_dead_callee_sat :
   conns s !! 2 = Some (get_conn s 2) /\ is_call (get_conn s 2) (CallFunction 9 1001 3 77) 9 1001 3 None 77 /\
   svc_by_cookie s 1001 = Some ((100, 200), get_svc s (100, 200)) /\ owner_of_svc s (100, 200) = Some 1 /\
   conns s !! 1 = Some (get_conn s 1) /\ cs_alive (get_conn s 1) = false /\
-  pick_serial s (Some 0) = Some (0, 0) /\ cs_calls (get_conn s 2) !! 9 = None.
+  pick_serial s (Some 0) = Some (0, 1) /\ cs_calls (get_conn s 2) !! 9 = None.
 Proof. exact call_dead_callee_sat. Qed.
 
 Example C02_dead_callee_call_run :
@@ -437,3 +438,107 @@ Example C02_caller_gone_then_destroy_run :
   [ [(1, AbortFunctionCall 0, None)];
     [(1, DestroyServiceReply 5 R3Ok, None); (3, CallFunctionReply 9 CRInvalidService, None)] ].
 Proof. exact caller_gone_then_destroy_run. Qed.
+
+(* ================================================================ broker-side serials are fresh
+   (Broker/SerialAlloc.v, Broker/SerialProofs.v).  The owner's reply is routed by the broker-side
+   serial alone, so "duplicate replies are never delivered" needs the allocator SerialMap::insert
+   (broker/src/serial_map.rs; text pinned by tools/rs2v_broker.py, modelled by [sm_probe] /
+   [sm_choice] in Broker/Model.v: probe next, next+1, ... mod 2^32 until a vacant serial is found,
+   next := serial + 1 mod 2^32) not to give the serial of a completed call to a later call.
+   [allocates s e]: the event e is a CallFunction / CallFunction2 (version >= 19) request that
+   reaches function_calls.insert in state s (caller connected, service cookie known);
+   [allocs s h]: the allocations along the history h from s, in order, as (serial, number of loop
+   iterations = number of times next was advanced); [serials s h]: their serials;
+   [advanced s h]: the sum of their iteration counts; [legal_run s h] (Props/C11_lemmas.v): every
+   input is legal in the state it is applied to — for a call request: fewer than 2^32 calls are
+   pending and the serial observed on the implementation's trace, if any, is the model's. *)
+
+(* (s1) the allocator succeeds whenever fewer than 2^32 calls are pending; the chosen serial is
+   not the serial of a live call, is a u32, and is the first vacant one at or after [next] *)
+Theorem C02_serial_vacant : forall s,
+  reachable s -> N.of_nat (size (calls s)) < 4294967296 ->
+  exists b nxt, sm_choice s = Some (b, nxt) /\ calls s !! b = None /\ b < 4294967296 /\
+    nxt = (b + 1) mod 4294967296 /\
+    (exists k : nat, b = (next s + N.of_nat k) mod 4294967296 /\
+       forall i, (i < k)%nat -> is_Some (calls s !! ((next s + N.of_nat i) mod 4294967296))) /\
+    forall bs, bs = None \/ bs = Some b -> pick_serial s bs = Some (b, nxt).
+Proof. exact serial_vacant. Qed.
+Print Assumptions C02_serial_vacant.
+
+(* (s2) [next] and the set of live broker serials change only by an allocation: any step (no
+   invariant, no legality) that allocates takes [pick_serial]'s serial b, sets next to the
+   allocator's value, and b is the only possible new key of [calls]; any other step leaves [next]
+   alone and adds no key *)
+Theorem C02_serial_only_by_allocation : forall s e f bs s' o,
+  step s e f bs = Done (s', o) ->
+  if allocates s e
+  then exists b nxt, pick_serial s bs = Some (b, nxt) /\ next s' = nxt /\
+         forall x, is_Some (calls s' !! x) -> is_Some (calls s !! x) \/ x = b
+  else next s' = next s /\ forall x, is_Some (calls s' !! x) -> is_Some (calls s !! x).
+Proof. exact step_alloc. Qed.
+Print Assumptions C02_serial_only_by_allocation.
+
+(* (s3) freshness over time: along a legal history from [init] in which [next] has been advanced
+   at most 2^32 times in total, the broker serials handed out are pairwise distinct — including
+   those of calls whose request never reached the callee *)
+Theorem C02_serial_fresh : forall h s' os,
+  legal_run init h -> run init h = Done (s', os) -> advanced init h <= 4294967296 ->
+  NoDup (serials init h).
+Proof. exact serial_fresh. Qed.
+Print Assumptions C02_serial_fresh.
+
+(* the same, split at any point of the history *)
+Theorem C02_serial_not_reused : forall h1 h2 s1 os1 s2 os2 b,
+  legal_run init (h1 ++ h2) -> run init h1 = Done (s1, os1) -> run s1 h2 = Done (s2, os2) ->
+  advanced init (h1 ++ h2) <= 4294967296 -> b ∈ serials init h1 -> b ∉ serials s1 h2.
+Proof. exact serial_not_reused. Qed.
+Print Assumptions C02_serial_not_reused.
+
+(* (s4) duplicates and late replies over a history: once the call that got broker serial b has
+   been answered or otherwise forgotten (its record is gone in s1), a CallFunctionReply b from
+   anyone at any later point of such a history produces no output and changes nothing *)
+Theorem C02_duplicate_never_delivered_run : forall h1 h2 s1 os1 s2 os2 b c r f bs,
+  legal_run init (h1 ++ h2) -> run init h1 = Done (s1, os1) -> run s1 h2 = Done (s2, os2) ->
+  advanced init (h1 ++ h2) <= 4294967296 ->
+  b ∈ serials init h1 -> calls s1 !! b = None ->
+  step s2 (Message c (CallFunctionReply b r)) f bs = Done (s2, []).
+Proof. exact duplicate_never_delivered_run. Qed.
+Print Assumptions C02_duplicate_never_delivered_run.
+
+(* the hypotheses are satisfiable: call (serial 0), answer, next call (serial 1, not 0 again) *)
+Example C02_serial_fresh_sat :
+  legal_run init (h_answered ++ h_next_call) /\
+  (exists s' os, run init (h_answered ++ h_next_call) = Done (s', os)) /\
+  advanced init (h_answered ++ h_next_call) = 2 /\ serials init (h_answered ++ h_next_call) = [0; 1].
+Proof. exact serial_fresh_sat. Qed.
+
+Example C02_duplicate_never_delivered_sat :
+  legal_run init (h_answered ++ h_next_call) /\
+  run init h_answered = Done (state_after h_answered, outs_after h_answered) /\
+  run (state_after h_answered) h_next_call =
+    Done (state_after (h_answered ++ h_next_call), drop 7 (outs_after (h_answered ++ h_next_call))) /\
+  advanced init (h_answered ++ h_next_call) <= 4294967296 /\
+  0 ∈ serials init h_answered /\ calls (state_after h_answered) !! 0 = None /\
+  calls (state_after (h_answered ++ h_next_call)) !! 1 = Some (get_call (state_after (h_answered ++ h_next_call)) 1).
+Proof. exact duplicate_never_delivered_sat. Qed.
+
+(* the owner's repeated answer to the first call, sent while the second call is pending, is dropped *)
+Example C02_duplicate_dropped_run :
+  drop 5 (outs_after h_reuse) =
+  [ [(1, CallFunction2 0 1001 3 None 77, Some 20)];
+    [(2, CallFunctionReply 9 (CROk 5), Some 20)];
+    [(1, CallFunction2 1 1001 3 None 78, Some 14)];
+    [] ].
+Proof. exact duplicate_dropped_run. Qed.
+
+(* (s5) what (s3)/(s4) exclude — seeded defect C02-b: with an allocator that restarts from 0
+   whenever no call is pending ([sm_choice_resetting], [run_resetting] in Props/C02_lemmas.v: per
+   step the allocation (serial, next) if any, and the outputs), two successive calls get broker
+   serial 0 and the owner's repeated answer to the first is delivered to the second caller *)
+Example C02_resetting_allocator_reuses :
+  drop 5 (run_resetting init h_reuse_unobserved) =
+  [ (Some (0, 1), [(1, CallFunction2 0 1001 3 None 77, Some 20)]);
+    (None,        [(2, CallFunctionReply 9 (CROk 5), Some 20)]);
+    (Some (0, 1), [(1, CallFunction2 0 1001 3 None 78, Some 14)]);
+    (None,        [(3, CallFunctionReply 9 (CROk 5), Some 20)]) ].
+Proof. exact resetting_allocator_reuses. Qed.
